@@ -808,7 +808,13 @@ class Evaluator:
                 body_env[n] = ("carried", n, uid)
         head = Path(body_env)
         if kind == "for" and enum_index is not None:
-            head.env[enum_index] = ("loopindex", uid)
+            st_ = info.enum_start
+            if isinstance(st_, tuple) and st_[0] == "const" and isinstance(st_[1], int) and not isinstance(st_[1], bool) and st_[1] != 0:
+                # enumerate(xs, k): the index is the 0-based position plus k
+                head.env[enum_index] = ("binop", "+", ("loopindex", uid), st_)
+                info.enum_start = None
+            else:
+                head.env[enum_index] = ("loopindex", uid)
             self._bind_target(st.target.elts[1], ("loopvar", uid, info.iter, ()), head, st)
         elif kind == "for":
             self._bind_target(st.target, ("loopvar", uid, info.iter, ()), head, st)
@@ -1381,6 +1387,9 @@ class Evaluator:
                 fs = percent_as_fstr(l[1], r)
                 if fs is not None:
                     return fs
+            # (i + k) - k  is  i   (a 1-based enumerate index brought back to 0-based)
+            if isinstance(node.op, ast.Sub) and r[0] == "const" and isinstance(r[1], int) and not isinstance(r[1], bool) and l[0] == "binop" and l[1] == "+" and l[3] == r and l[2][0] == "loopindex":
+                return l[2]
             return ("binop", _BINOPS.get(type(node.op), "?"), l, r)
         if isinstance(node, ast.UnaryOp):
             return ("unop", _UNOPS[type(node.op)], ev(node.operand))
